@@ -276,25 +276,16 @@ def _is_batched(t: torch.Tensor) -> bool:
         return False
 
 
-def safe_deepcopy(m: nn.Module) -> Tuple[nn.Module, List[str]]:
-    """copy.deepcopy(m) that also works when the object holds (anywhere, also nested in containers) non-leaf tensors
-    (e.g. the theta_alpha written by a grad-enabled forward: copied as detached clones) or dead functorch
-    BatchedTensors (left by a vmap'ed cost function in a module's __dict__: copied as None).  The live object is not
-    touched.  Returns (copy, names of the attributes holding dead BatchedTensors)."""
-    dirty = []
-    for mn, mod in m.named_modules():
-        for k, v in list(mod.__dict__.items()):
-            if isinstance(v, torch.Tensor) and _is_batched(v):
-                dirty.append(f"{type(mod).__name__}.{k}")
+def _deepcopy_with(m: nn.Module, tolerate_batched: bool) -> nn.Module:
     orig = torch.Tensor.__deepcopy__
 
     def patched(self, memo):
         if id(self) in memo:
             return memo[id(self)]
-        if _is_batched(self):
+        if tolerate_batched and _is_batched(self):
             memo[id(self)] = None
             return None
-        if self.grad_fn is not None and not isinstance(self, nn.Parameter):
+        if self.grad_fn is not None and not isinstance(self, nn.Parameter) and not _is_batched(self):
             r = self.detach().clone()
             memo[id(self)] = r
             return r
@@ -304,10 +295,59 @@ def safe_deepcopy(m: nn.Module) -> Tuple[nn.Module, List[str]]:
     try:
         with warnings.catch_warnings():
             warnings.simplefilter("ignore")
-            c = copy.deepcopy(m)
+            return copy.deepcopy(m)
     finally:
         torch.Tensor.__deepcopy__ = orig
-    return c, sorted(set(dirty))
+
+
+def safe_deepcopy(m: nn.Module) -> Tuple[nn.Module, List[str], bool]:
+    """copy.deepcopy(m) that also works when the object holds (anywhere, also nested in containers) non-leaf tensors
+    (e.g. the theta_alpha written by a grad-enabled forward: copied as detached clones; that is how a forward pass
+    leaves every MPS model and has nothing to do with observers).  The live object is not touched.
+    A first, STRICT attempt tolerates nothing else: if it fails (e.g. a dead functorch BatchedTensor left by a vmap'ed
+    cost function in a module's __dict__: torch refuses to copy or pickle it) the model is `not copyable` and a second
+    attempt copies such tensors as None.  Returns (copy, names of the attributes holding dead BatchedTensors, copy_ok)."""
+    dirty = []
+    for mn, mod in m.named_modules():
+        for k, v in list(mod.__dict__.items()):
+            if isinstance(v, torch.Tensor) and _is_batched(v):
+                dirty.append(f"{type(mod).__name__}.{k}")
+    try:
+        return _deepcopy_with(m, False), sorted(set(dirty)), True
+    except MachineryError:
+        raise
+    except Exception:
+        return _deepcopy_with(m, True), sorted(set(dirty)), False
+
+
+def public_dict_keys(m: nn.Module) -> Dict[str, List[str]]:
+    """module name -> sorted PUBLIC keys of vars(module) (names not starting with '_': private attributes such as
+    caches / memos are an implementation's own business and are not compared)"""
+    return {n: sorted(k for k in vars(mod) if not k.startswith("_")) for n, mod in m.named_modules()}
+
+
+def is_nas_module(mod: nn.Module) -> bool:
+    from plinio.methods.pit.nn.module import PITModule
+    from plinio.methods.mps.nn.module import MPSModule
+    from plinio.methods.mps.nn.qtz import MPSBaseQtz, MPSBiasQtz
+    from plinio.methods.supernet.nn.combiner import SuperNetCombiner
+    return isinstance(mod, (PITModule, MPSModule, MPSBaseQtz, MPSBiasQtz, SuperNetCombiner))
+
+
+def dict_key_diff(m: nn.Module, before: Dict[str, List[str]], after: Dict[str, List[str]]) -> Dict[str, Any]:
+    """what a call did to the public attribute key sets: new / removed keys as records [m (module type), k (key),
+    nas (the module is a searchable layer / quantiser / combiner of the method)] (first 16) and their counts"""
+    mods = dict(m.named_modules())
+    new, gone = [], []
+    for n in sorted(set(before) | set(after)):
+        b, a = set(before.get(n, [])), set(after.get(n, []))
+        mod = mods.get(n)
+        ty = type(mod).__name__ if mod is not None else "?"
+        nas = bool(mod is not None and is_nas_module(mod))
+        new += [{"m": ty, "k": k, "nas": nas} for k in sorted(a - b)]
+        gone += [{"m": ty, "k": k, "nas": nas} for k in sorted(b - a)]
+    uniq = lambda xs: [json.loads(y) for y in sorted({json.dumps(x, sort_keys=True) for x in xs})]
+    return {"new": uniq(new)[:16], "nnew": len(new), "del": uniq(gone)[:16], "ndel": len(gone)}
 
 
 # ----------------------------------------------------------------------------------------------
@@ -424,7 +464,7 @@ def export_fingerprint(e: nn.Module, x: torch.Tensor, ids: Ids) -> Dict[str, Any
         struct.append([n, type(mod).__name__, hp])
     code = getattr(e, "code", "")
     rng0 = torch.get_rng_state()
-    e2, _ = safe_deepcopy(e)
+    e2 = safe_deepcopy(e)[0]
     e2.eval()
     with torch.no_grad():
         y = e2(x)
@@ -451,7 +491,7 @@ def _settle(kind: str, m, x: torch.Tensor, wseed: int) -> None:
 
 def bn_live(m, xf: torch.Tensor) -> bool:
     """does a training-mode forward pass update BatchNorm statistics? (probed on a copy; fold_bn / MPS: no)"""
-    c, _ = safe_deepcopy(m)
+    c = safe_deepcopy(m)[0]
     before = [int(v) for k, v in c.state_dict().items() if k.endswith("num_batches_tracked")]
     c.train()
     with torch.no_grad():
@@ -494,8 +534,10 @@ def observe(kind: str, m, x: torch.Tensor, ids: Ids, cs: str) -> Dict[str, Any]:
     o["cs"] = cs
     # everything below executes code of the model: on faithful copies only.  Cost and summary first, on a copy
     # that has NOT been forwarded (they must see the coefficients as they are stored right now).
-    c, dirty = safe_deepcopy(m)
+    c, dirty, copy_ok = safe_deepcopy(m)
     o["dirty"] = dirty
+    o["copy_ok"] = bool(copy_ok)
+    o["dkeys"] = ids.of("dkeys", json.dumps(public_dict_keys(m), sort_keys=True))
     o["fperr"] = ""
 
     def guarded(what, fn, default):
@@ -517,7 +559,7 @@ def observe(kind: str, m, x: torch.Tensor, ids: Ids, cs: str) -> Dict[str, Any]:
     o["sum"] = ids.of("sum", guarded("summary", lambda: json.dumps(jsonable(c.summary())), "raised"))
     # output in the modes the model is in (after cost / summary were read), then in eval mode on a second copy
     o["out"], o["outx"] = guarded("forward", lambda: ids.out(c(x)), (0, 0))
-    c2, _ = safe_deepcopy(m)
+    c2 = safe_deepcopy(m)[0]
     c2.eval()
     o["oute"], o["outex"] = guarded("forward(eval)", lambda: ids.out(c2(x)), (0, 0))
     torch.set_rng_state(rng0)
@@ -599,12 +641,14 @@ def run_c18(sc: Dict[str, Any]) -> Dict[str, Any]:
     ev = []
     cs2 = cs
     for act in sc["acts"]:
+        keys0 = public_dict_keys(m)
         r = apply_c18(kind, m, act, xf, x, ids)
         if act["a"] == "setcs" and not r["err"]:
             cs = act["c"]
         o = observe(kind, m, x, ids, cs)
         e = {"act": dict({"nobn": False, "n": "-", "c": "-", "v": False}, **act), "obs": o, "ret": r["ret"],
-             "err": r["err"], "rngadv": r["rngadv"], "ref": {"has": False, "obs": o}}
+             "err": r["err"], "rngadv": r["rngadv"], "dk": dict_key_diff(m, keys0, public_dict_keys(m)),
+             "ref": {"has": False, "obs": o}}
         if act["a"] not in OBSERVER_OPS:
             r2 = apply_c18(kind, m2, act, xf, x, ids)
             if act["a"] == "setcs" and not r2["err"]:
@@ -908,7 +952,7 @@ def run_c17(sc: Dict[str, Any]) -> Dict[str, Any]:
             if last:
                 target = m
             else:
-                target, _ = safe_deepcopy(m)
+                target = safe_deepcopy(m)[0]
             r = checkpoint_test(kind, target, sc, hist, dict(ck, copy=not last), x, ids)
             ev.append({"act": {"a": "ckpt", "g": "-", "o": "-", "v": 0}, "replayed": False, "err": "", "g": group_ids(target, ids),
                        "ck": r})
